@@ -37,7 +37,7 @@ func genLogK(rt *rapid.T, w Weights, minOps, maxOps int, drivePct int) (*History
 	st, _ := h.Exec(Op{Kind: OpBlock, Time: T0.Add(2)})
 	alive = st.Res.OK
 	n := rapid.IntRange(minOps, maxOps).Draw(rt, "n-ops")
-	for i := 0; i < n && alive; i++ {
+	for i := 0; (i < n || g.Busy()) && alive && i < n+400; i++ {
 		o := excludeKnown(g.Next(rt, wd, h.Steps[len(h.Steps)-1].Post), GlobalCollector(""))
 		st, _ := h.Exec(o)
 		if st.Op.Kind == OpBlock && !st.Res.OK {
